@@ -234,7 +234,7 @@ class RTCMReader:
         """
 
         data = self._stream.read(size)
-        if len(data) == 0:  # EOF
+        if len(data) == 0 and size > 0:  # EOF (a zero-length request is not EOF)
             raise EOFError()
         if 0 < len(data) < size:  # truncated stream
             raise RTCMStreamError(
